@@ -84,6 +84,17 @@ Definition run_case (s : sexp) : sexp :=
       | _, _ => v_badcase
       end
     else v_badcase
+  | L [S n; I w; I h; B init; L ops; L bufs] =>
+    (* canvas created with CreateFromBytes(w, h, init): the caller's buffer (exactly ceil(w/8)*h
+       bytes here) becomes the image, padding bits included *)
+    if bytes_eqb n (str "seqb") then
+      match dec_ops ops, dec_bufs bufs with
+      | Some ops, Some bufs =>
+        if (w <? 0) || (h <? 0) || negb (zlen init =? ceil_div8 w * h) || negb (bytes_ok init) then v_badcase
+        else let m := with_data (new_image w h) init in walk m init ops bufs 0 false
+      | _, _ => v_badcase
+      end
+    else v_badcase
   | _ => v_badcase
   end.
 
